@@ -100,10 +100,11 @@ func vpTrimQuotes(s string) string {
 }
 
 // vp:check C13 both configs=tail:0|1|2|3|4 K=40 timeout=900
+// vp:check C18 both configs=tail:0|1|2|3|4 K=40 timeout=900
 // vp_C13_parse_auth: ParseAuthorization never panics and agrees with the reference parser on "X-Matrix " followed by
 // an arbitrary ASCII tail of the configured length and a fixed well-formed remainder.
 func vp_C13_parse_auth() {
-	tail := vpNondetStringN("tail", vpConfigInt("tail"))
+	tail := vpNondetStringN("tail_bytes", vpConfigInt("tail"))
 	for i := 0; i < len(tail); i++ {
 		vpAssume(tail[i] < 0x80)
 	}
